@@ -951,6 +951,26 @@ def cmd_execpyc(args, out):
         out.flush()
 
 
+def cmd_redump(args, out):
+    """The interpreter's own read-then-write: <pyc> -> marshal.loads -> marshal.dumps -> <pyc>.own.pyc (same header)."""
+    for p in args["files"]:
+        rec = {"pyc": p}
+        try:
+            with open(p, "rb") as f:
+                data = f.read()
+            hl = header_len()
+            co = marshal.loads(data[hl:])
+            with open(p + ".own.pyc", "wb") as f:
+                f.write(data[:hl] + marshal.dumps(co))
+            rec["ok"] = True
+        except BaseException as e:
+            if isinstance(e, KeyboardInterrupt):
+                raise
+            rec["ok"] = False
+            rec["error"] = type(e).__name__
+        out.write(json.dumps(rec) + "\n")
+
+
 def cmd_loadpyc_canon(args, out):
     """marshal.loads the payload of each file and report the full canonical tree digest."""
     for p in args["files"]:
@@ -1025,6 +1045,7 @@ CMDS = {
     "pycompile": cmd_pycompile,
     "execpyc": cmd_execpyc,
     "loadpyc_canon": cmd_loadpyc_canon,
+    "redump": cmd_redump,
     "magic": cmd_magic,
     "linetab": cmd_linetab,
 }
